@@ -13,6 +13,7 @@ from symx.explore import H
 from harness.graphs import PROGRAMS, Built, Spec
 
 PROPERTY = 'C03'
+KINDS_TXT = 'Constant/Operation/Prior/Simulator/Summary/Discrepancy'
 EXPLANATION = ('ElfiModel.generate (ClientBase.compile with its five compilers, load_data with its four loaders, '
                'Executor.execute / get_execution_order / _run) is executed on real models built from a program description; '
                'every operation is an uninterpreted function that records the keyword arguments it receives and how often it '
@@ -21,7 +22,7 @@ EXPLANATION = ('ElfiModel.generate (ClientBase.compile with its five compilers, 
 ASSUMPTIONS = [
     'operations are deterministic functions of the arguments they receive (uninterpreted)',
     'simulators carry observed data (an unobserved simulator is outside: its twin calls the user function without arguments)',
-    'named edges are created with ElfiModel.add_edge(param_name=...); a discrepancy node has positional parents only',
+    'named edges are created with ElfiModel.add_edge(param_name=...); a discrepancy node and a prior (whose parents are the positional arguments of its distribution) have positional parents only',
     'main claim: a parent is connected to a child by at most one edge (complement: known finding C03/parent-connected-twice)',
     'values are scalars (the executor does not inspect them)',
 ]
@@ -42,19 +43,21 @@ def bad_discrepancies(B):
     return bad
 
 
-def h_generate(ctx, program, limit_given=None):
-    specs = PROGRAMS[program]
+def h_generate(ctx, program, limit_given=None, specs=None, max_given=None, fixed_bs=None, only_last_output=False):
+    specs = specs if specs is not None else PROGRAMS[program]
     B = Built(ctx, specs)
     names = B.order
     # solver-chosen request: which outputs, which nodes are supplied by the user
-    outputs = [n for n in names if ctx.flag('out_%s' % n)]
+    outputs = names[-1:] if only_last_output else [n for n in names if ctx.flag('out_%s' % n)]
     if not outputs:
         raise core.Infeasible()
     supplied = {}
     for n in names[:limit_given] if limit_given else names:
+        if max_given is not None and len(supplied) >= max_given:
+            break
         if ctx.flag('given_%s' % n):
             supplied[n] = ctx.real('wv_%s' % n)
-    bs = 1 + 2 * ctx.choice('bs_sel', 2)
+    bs = fixed_bs if fixed_bs else 1 + 2 * ctx.choice('bs_sel', 2)
     ctx.note('program=%s outputs=%s supplied=%s bs=%d' % (program, outputs, sorted(supplied), bs))
     den = B.denote(outputs, supplied, bs)
     raised = None
@@ -104,6 +107,43 @@ def h_generate(ctx, program, limit_given=None):
     # all stochastic nodes of the batch share one generator object
     gens = [g for n in names for g in B.rs_seen.get(n, [])]
     ctx.claim('one_generator_per_batch', all(g is gens[0] for g in gens))
+
+
+FAMILY_NAMES = ('m', 'c', 'x', 'a')     # creation order is NOT alphabetical: sorting vs declaration order matters
+FAMILY_KW = ('q', 'e', 'w')             # keyword of a named edge from node j (again not in creation order)
+
+
+def family_program(ctx, n_nodes, last_kinds=None):
+    """A solver-chosen program: kind of every node, every earlier node as no / positional / named parent, positional order
+    (declared ascending or descending), observations, meta users.  Well-formedness as in ASSUMPTIONS."""
+    from harness.graphs import KINDS
+    specs = []
+    for i in range(n_nodes):
+        name = FAMILY_NAMES[i]
+        kinds = KINDS if (last_kinds is None or i < n_nodes - 1) else last_kinds
+        kind = kinds[ctx.choice('kind_%s' % name, len(kinds))]
+        pos, named = [], {}
+        if kind != 'Constant':
+            for j in range(i):
+                how = ctx.choice('edge_%s_%s' % (FAMILY_NAMES[j], name), 2 if kind in ('Discrepancy', 'Prior') else 3)
+                if how == 1:
+                    pos.append(FAMILY_NAMES[j])
+                elif how == 2:
+                    named[FAMILY_KW[j]] = FAMILY_NAMES[j]
+            if len(pos) >= 2 and ctx.flag('positional_reversed_%s' % name):
+                pos.reverse()
+        if kind in ('Summary', 'Discrepancy') and not pos:
+            raise core.Infeasible()        # the constructors of these classes demand at least one positional parent
+        observed = kind == 'Simulator' or (kind == 'Summary' and ctx.flag('observed_%s' % name))
+        meta = kind not in ('Constant', 'Prior') and i == n_nodes - 1 and ctx.flag('meta_%s' % name)
+        specs.append(Spec(name, kind, pos, named, observed=observed, uses_meta=meta))
+    return specs
+
+
+def h_generate_family(ctx, n_nodes, max_given=1, last_kinds=None, fixed_bs=None, only_last_output=False):
+    specs = family_program(ctx, n_nodes, last_kinds)
+    ctx.note('program=%s' % specs)
+    return h_generate(ctx, None, specs=specs, max_given=max_given, fixed_bs=fixed_bs, only_last_output=only_last_output)
 
 
 def h_two_batches(ctx, program):
@@ -170,6 +210,19 @@ for pname in ('chain', 'two_summaries', 'operation_between', 'two_sims'):
     HARNESSES.append(H('two_batches_' + pname, h_two_batches, dict(program=pname),
                        tiers=('quick', 'thorough') if pname in ('chain', 'two_summaries') else ('thorough',),
                        bounds='program %s, two consecutive batches on one context, second with one overridden node' % pname))
+
+_FAM = ('EVERY program of %d nodes (names m, c, x, a created in that order): kind of each node in ' + KINDS_TXT + ', each earlier '
+        'node no / positional / named parent (priors and discrepancies: positional only), positional order ascending or '
+        'descending, observed summaries, last node optionally a meta user; ')
+HARNESSES.append(H('gen_family_3nodes', h_generate_family, dict(n_nodes=3, max_given=0, fixed_bs=3), max_paths=400000,
+                   bounds=_FAM % 3 + 'every non-empty subset of requested outputs, nothing supplied, batch_size 3'))
+HARNESSES.append(H('gen_family_3nodes_one_supplied', h_generate_family, dict(n_nodes=3, max_given=1), tiers=('thorough',),
+                   max_paths=3000000,
+                   bounds=_FAM % 3 + 'every non-empty subset of requested outputs x at most one supplied node x batch_size {1,3}'))
+HARNESSES.append(H('gen_family_4nodes_last_output', h_generate_family,
+                   dict(n_nodes=4, last_kinds=('Summary', 'Discrepancy', 'Operation'), max_given=0, fixed_bs=1, only_last_output=True),
+                   tiers=('thorough',), max_paths=3000000,
+                   bounds=_FAM % 4 + 'last node a Summary, Discrepancy or Operation and the only requested output, batch_size 1'))
 
 MANIFEST = {
     'level_text': 'Bounded symbolic execution of the real compile/load/execute pipeline on programs with uninterpreted operations: '
